@@ -58,7 +58,7 @@ func VerifC19Framing(v *vrt.T) {
 
 	// the reading side: the stream arrives in fragments; as in udf.go the reader may be
 	// a bufio.Reader (default size 4096, or the minimum 16) on top of the pipe.
-	fr := &verifFragReader{v: v, data: w.data, short: v.Bound("short", 3)}
+	fr := &verifFragReader{v: v, data: w.data, short: v.Bound("short", 3), empty: v.Bound("empty", 1)}
 	var r ByteReadReader = fr
 	switch v.Choose("reader", 3) {
 	case 1:
